@@ -4,7 +4,7 @@ use crate::core::{DynScenario, Tier};
 use crate::scen;
 
 pub fn all_scenarios() -> Vec<Box<dyn DynScenario>> {
-    vec![Box::new(scen::c16::C16), Box::new(scen::c14::C14), Box::new(scen::c02::C02), Box::new(scen::c03::C03), Box::new(scen::c05::C05), Box::new(scen::c06::C06), Box::new(scen::c07::C07), Box::new(scen::c08::C08), Box::new(scen::c09::C09), Box::new(scen::c10::TdScen { mode: 0 }), Box::new(scen::c10::TdScen { mode: 1 }), Box::new(scen::c12::C12)]
+    vec![Box::new(scen::c16::C16), Box::new(scen::c14::C14), Box::new(scen::c02::C02), Box::new(scen::c03::C03), Box::new(scen::c05::C05), Box::new(scen::c06::C06), Box::new(scen::c07::C07), Box::new(scen::c08::C08), Box::new(scen::c09::C09), Box::new(scen::c10::TdScen { mode: 0 }), Box::new(scen::c10::TdScen { mode: 1 }), Box::new(scen::c12::C12), Box::new(scen::c13::C13)]
 }
 
 pub fn find_scenario(name: &str) -> Option<Box<dyn DynScenario>> {
@@ -155,6 +155,15 @@ pub fn property(id: &str) -> Option<PropSpec> {
             ],
             components_real: vec!["every serialize method: HllSketch, CompactThetaSketch::serialize / serialize_compressed, CpcSketch, BloomFilter, CountMinSketch<T>, FrequentItemsSketch<T>, TDigestMut", "the update / union / merge paths that build the states"],
             components_stub: vec!["ForeignReader: independent decoder per family (sim/src/speccodec)", "reference models of the streams"],
+        },
+        "C13" => PropSpec {
+            id: "C13",
+            level: "exploration",
+            parts: vec![p("c13_foreign_images", REL, BOTH)],
+            rule: "one run = 2-7 independent deliveries of foreign images produced by the independent spec encoder from PRNG-drawn abstract states: HLL (list / set / array x Hll4/6/8 x compact and updatable layouts incl. updatable set tables, compact-flag arrays, compact and updatable Hll4 aux sections, out-of-order flag), theta serial versions 1-4 (empty, single item with and without the SINGLE_ITEM flag, exact, estimating, ordered and unordered, Java and C++ padding field), t-digest native f64 / f32 with and without buffered values and the reference-implementation asBytes / asSmallBytes encodings (heavy extreme centroids with min/max beyond them), Bloom with dirty or clean bit counts, Frequent Items longs / UTF-8 strings / empty forms, Count-Min for all eight counter types. Each image is deserialized by the real reader; accessors must equal the encoded state; a union / merge with a locally built sketch must equal the model union; further updates keep it equal to the model; the re-serialized image goes back through the independent decoder. Non-trivial = every run; distinct = distinct (variant kinds delivered, probes) keys.",
+            assumptions: vec!["the format transcription of DESIGN.md Appendix A (as for C12)", "abstract states are kept inside what the respective Java/C++ writers can emit (e.g. v4 only for ordered non-empty non-single sketches; set mode only within its load factor)"],
+            components_real: vec!["HllSketch::deserialize + HllUnion", "CompactThetaSketch::deserialize_with_seed (v1-v4) + serialize / serialize_compressed", "TDigestMut::deserialize (f64, f32, compat) + rank / quantile / merge / update", "BloomFilter::deserialize", "FrequentItemsSketch<i64|String>::deserialize", "CountMinSketch<T>::deserialize_with_seed"],
+            components_stub: vec!["ForeignWriter: independent encoder per family (sim/src/speccodec)", "ForeignReader for the re-serialized images", "abstract-state models"],
         },
         _ => return None,
     })
